@@ -204,7 +204,33 @@ def history(ctx: Any) -> List[Ob]:
             ok_k = all(s.kind == 'return' and norm(s.ast.value) == 'False' for s, lab in t.succ if lab is True)
     obs.append(ob(R, h, 'if now - than > _DUPLICATE_QUESTION_INTERVAL: return False', 'a question asked more than 999 ms ago does not suppress', ok_w))
     obs.append(ob(R, h, 'if previous_known_answers - known_answers: return False', 'a previous question whose known answers contained something we do not know does not suppress', ok_k))
-    # responder records only non-QU questions: decided under C11.ROUTE ('HISTORY' label)
+    # responder side: what is remembered with a heard question is the union of the known answers of ALL packets of the query
+    ar = prog.func('zeroconf._handlers.query_handler.QueryHandler.async_response')
+    msgs = ar.params[1]
+    rec_calls = [c for c in walk_local_ordered(ar.node) if isinstance(c, ast.Call) and call_name(c) == 'add_question_at_time']
+    good = len(rec_calls) == 1
+    why = ''
+    if good:
+        arg = rec_calls[0].args[2]
+        defs = [st.value for st in walk_local_ordered(ar.node) if isinstance(st, (ast.Assign, ast.AnnAssign)) and norm(st.targets[0] if isinstance(st, ast.Assign) else st.target) == norm(arg) and st.value is not None and not (isinstance(st.value, ast.Constant) and st.value.value is None)]
+        rr = None
+        good = bool(defs)
+        for d in defs:
+            if isinstance(d, ast.Call) and call_name(d) in ('lookup_set', '_get_lookup') and isinstance(d.func, ast.Attribute):
+                rr = norm(d.func.value)
+            else:
+                good = False
+                why = f'`{norm(d)[:70]}` is not the lookup set of the query\'s known-answer RRSet'
+        if good and rr:
+            rrdef = [st.value for st in walk_local_ordered(ar.node) if isinstance(st, ast.Assign) and norm(st.targets[0]) == rr]
+            good = len(rrdef) == 1 and isinstance(rrdef[0], ast.Call) and call_name(rrdef[0]) == 'DNSRRSet' and len(rrdef[0].args) == 1
+            if good:
+                lst = norm(rrdef[0].args[0])
+                ext = [c for lp in walk_local_ordered(ar.node) if isinstance(lp, ast.For) and norm(lp.iter) == msgs for c in ast.walk(lp) if isinstance(c, ast.Call) and call_name(c) == 'extend' and norm(c.func.value) == lst and isinstance(c.args[0], ast.Call) and call_name(c.args[0]) == 'answers' and norm(c.args[0].func.value) == norm(lp.target)]
+                good = len(ext) == 1
+                if not good:
+                    why = 'the RRSet is not built from the answers of every packet'
+    obs.append(ob(R, ar, rec_calls[0] if rec_calls else 'add_question_at_time', 'a heard QM question is remembered with the union of the known answers of all packets of the (possibly truncated) query -- the same set used for suppression', good, why))
     return obs
 
 
